@@ -2,6 +2,7 @@ package main
 
 import (
 	"fmt"
+	"math/bits"
 	"strings"
 
 	"github.com/containerd/nri/pkg/api"
@@ -10,7 +11,9 @@ import (
 	"verif/harness/internal/hx"
 )
 
-func main() { hx.Main(map[string]func(*hx.Ctx) error{"masks": driveMasks}) }
+func main() {
+	hx.Main(map[string]func(*hx.Ctx) error{"masks": driveMasks, "conv": driveConv, "alias": driveAlias})
+}
 
 type maskCase struct {
 	Mask   int32  `json:"mask"`
@@ -27,17 +30,36 @@ func optMask(m api.EventMask, err error) *int64 {
 }
 
 // driveMasks: every valid event mask (exhaustive) through PrettyString and
-// ParseEventMask, plus a stream of free-form parser inputs.
+// ParseEventMask with the round-trip oracle evaluated in Go; the cases sent to
+// Coq (model correspondence) are all masks in the thorough tier and, in the
+// quick tier, every mask with at most two bits set plus 1000 random others.
+// Plus a stream of free-form parser inputs.
 func driveMasks(c *hx.Ctx) error {
-	sh := c.NewShard("masks", "From NRI Require Import Run.Common Run.RunC14.", "mask_case", "corr_mask", "holds_mask", 1024)
+	sh := c.NewShard("masks", "From NRI Require Import Run.Common Run.RunC14.", "mask_case", "corr_mask", "holds_mask", 600)
 	valid := int32(api.ValidEvents)
+	toCoq := map[int32]bool{}
+	if c.Quick() {
+		for m := int32(1); m <= valid; m++ {
+			if bits.OnesCount32(uint32(m)) <= 2 || m == valid {
+				toCoq[m] = true
+			}
+		}
+		rm := c.Rand("masks")
+		for want := len(toCoq) + 1000; len(toCoq) < want && len(toCoq) < int(valid); {
+			toCoq[1+rm.Int31n(valid)] = true
+		}
+	}
+	sent := 0
 	for m := int32(1); m <= valid; m++ {
 		mask := api.EventMask(m)
 		s := mask.PrettyString()
 		parsed := optMask(api.ParseEventMask(s))
 		cs := maskCase{Mask: m, Pretty: s, Parsed: parsed}
-		sh.Add(fmt.Sprintf("{| mc_mask := %s; mc_pretty := %s; mc_parsed := %s |}",
-			coqfmt.Z(int64(m)), coqfmt.Str(s), coqfmt.OptZ(parsed)), cs)
+		if !c.Quick() || toCoq[m] {
+			sh.Add(fmt.Sprintf("{| mc_mask := %s; mc_pretty := %s; mc_parsed := %s |}",
+				coqfmt.Z(int64(m)), coqfmt.Str(s), coqfmt.OptZ(parsed)), cs)
+			sent++
+		}
 		c.Eval(fmt.Sprint("mask/", m), true)
 		if parsed == nil || *parsed != int64(m) {
 			c.ImplFail("masks", "ParseEventMask(PrettyString(m)) != m", cs)
@@ -46,7 +68,9 @@ func driveMasks(c *hx.Ctx) error {
 			c.Sample(cs, 8)
 		}
 	}
-	c.Count("masks.exhaustive", int(valid))
+	c.Count("masks.exhaustive-in-go", int(valid))
+	c.Count("masks.sent-to-coq", sent)
+	c.Stats.Extra = map[string]interface{}{"masks": fmt.Sprintf("round-trip oracle evaluated in Go on all %d masks; %d of them also evaluated against the Coq model", valid, sent)}
 
 	// free-form parser inputs: names in mixed case, group names, blanks, junk
 	r := c.Rand("parse")
@@ -80,6 +104,6 @@ func driveMasks(c *hx.Ctx) error {
 		}
 	}
 	c.Stats.Exhaustive = true
-	c.Stats.Rule = "masks: every mask 1..ValidEvents printed and parsed back by the implementation (exhaustive; each is distinct and non-trivial); parse: random comma lists of event/group names in mixed case with blanks and junk, non-trivial when the parser accepts"
+	c.Stats.Rule = "masks: every mask 1..ValidEvents printed and parsed back by the implementation, round trip judged in Go (exhaustive; each is distinct and non-trivial); compared with the Coq model: all masks (thorough) or all masks with <= 2 bits set, the full mask and 1000 random others (quick); parse: random comma lists of event/group names in mixed case with blanks and junk, non-trivial when the parser accepts"
 	return nil
 }
